@@ -6,6 +6,7 @@
 -/
 import Gnet.Spec.ReactorSpec
 import Gnet.Proofs.ReactorBytes
+import Gnet.Spec.ReactorExample
 namespace Gnet.Props.C01
 open Gnet.Reactor
 
@@ -17,6 +18,15 @@ theorem inbound_integrity (s s' : RState) (toks : List Tok) (hn : NamesNodup s)
 /-- it holds initially -/
 theorem inbound_init (cfg : Cfg) : InvIn { cfg := cfg } ∧ Quiet { cfg := cfg } ∧ NamesNodup { cfg := cfg } :=
   Proofs.ReactorBytes.inbound_init cfg
+
+/-! Non-vacuity. A recorded history (Spec/ReactorExample.lean) is accepted round by round, the hypotheses of
+`inbound_integrity` hold of its first state (`inbound_init`), and the accounting it preserves is not empty: four
+bytes were delivered and all four wait in the inbound buffer. -/
+example : (Example.after 2).bind Example.bytesView = some [[10, 11, 12, 13], [10, 11, 12, 13], [104, 105], [104, 105]] := by
+  decide +kernel
+
+example (s1 : RState) (h : acceptRound Example.s0 Example.round1 = .ok s1) : InvIn s1 :=
+  (inbound_integrity _ _ _ (inbound_init _).2.2 h (inbound_init _).1 (inbound_init _).2.1).1
 
 end Gnet.Props.C01
 
